@@ -422,3 +422,32 @@ def signature_wiring(ctx, R, rule):
             det = "argument root %r" % (r,)
             ok = r.kind == "arg" and r.base[1] == 1 and r.path == (field,)
     ctx.ob(rule, "the entry hands &self.%s to sample" % field, ok, e1.path, "signature-forwarded", where=pat.where(t), detail=det)
+
+
+def built_structs(facts, R, body, adt):
+    """Like pat.aggregates(body, adt), plus structs built through a local constructor function whose body forwards its parameters into
+    the aggregate (`Metadata::new(a, b, …)`): yields (bb, idx|None, pseudo-statement) whose `ops` are the CALLER's operands, so that field
+    provenance is unchanged by the indirection (and a constructor that swaps two parameters shows up as swapped fields)."""
+    found = False
+    for x in pat.aggregates(body, adt):
+        found = True
+        yield x
+    if found:
+        return
+    for bi, t, cb in R.local_callees(body):
+        rty = cb.local_ty(0)
+        if not (rty == adt or rty.endswith("::" + adt) or ("::" + adt + "<") in rty or rty.startswith(adt + "<")):
+            continue
+        aggs = list(pat.aggregates(cb, adt))
+        if len(aggs) != 1:
+            continue
+        vc = Vals(cb)
+        rv = aggs[0][2]["rv"]
+        fields, ops = [], []
+        for fld, op in zip(rv["fields"], rv["ops"]):
+            r = vc.root(op) if op["k"] in ("copy", "move") else None
+            if r is not None and r.kind == "arg" and not r.path and 1 <= r.base[1] <= len(t["args"]):
+                fields.append(fld)
+                ops.append(t["args"][r.base[1] - 1])
+        yield bi, None, {"k": "assign", "place": t["dest"], "span": t.get("span"),
+                         "rv": {"k": "aggregate", "agg": "adt", "adt": rv["adt"], "variant": rv.get("variant"), "fields": fields, "ops": ops}}
